@@ -690,6 +690,20 @@ impl<'tcx> Cx<'tcx> {
                     }
                 }
             }
+            if let TyKind::Array(elem, n) = inner.kind() {
+                // promoted / named `&[T; N]` tables of non-integers (lookup tables of enum values): describe the pointee, element by element
+                if !elem.is_integral() && n.try_to_target_usize(tcx).map_or(false, |n| n <= 64) {
+                    if let Ok(ConstValue::Scalar(rustc_middle::mir::interpret::Scalar::Ptr(ptr, _))) = c.eval(tcx, env, span) {
+                        let (prov, off) = ptr.prov_and_relative_offset();
+                        if let Some(rustc_middle::mir::interpret::GlobalAlloc::Memory(_)) = tcx.try_get_global_alloc(prov.alloc_id()) {
+                            let cv = ConstValue::Indirect { alloc_id: prov.alloc_id(), offset: off };
+                            let mut d = J::obj();
+                            self.describe_const_value(cv, *inner, &mut d);
+                            o.set("deref_const", d);
+                        }
+                    }
+                }
+            }
             if let TyKind::Adt(iadt, _) = inner.kind() {
                 if iadt.is_enum() || iadt.is_struct() {
                     if let Ok(ConstValue::Scalar(rustc_middle::mir::interpret::Scalar::Ptr(ptr, _))) = c.eval(tcx, env, span) {
@@ -792,6 +806,27 @@ impl<'tcx> Cx<'tcx> {
                         fs.push(fj);
                     }
                     o.set("fields", J::Arr(fs));
+                }
+            }
+        }
+        if let TyKind::Array(elem, n) = ty.kind() {
+            if n.try_to_target_usize(tcx).map_or(false, |n| n <= 64) {
+                if let Some(d) = tcx.try_destructure_mir_constant_for_user_output(val, ty) {
+                    let mut es = vec![];
+                    for (fv, _fty) in d.fields.iter() {
+                        let mut ej = J::obj();
+                        match fv.try_to_scalar_int() {
+                            Some(si) if elem.is_integral() || elem.is_bool() => {
+                                let size = si.size();
+                                let bits = si.to_bits(size);
+                                let v: i128 = if elem.is_signed() { size.sign_extend(bits) as i128 } else { bits as i128 };
+                                ej.set("v", J::Int(v));
+                            }
+                            _ => self.describe_const_value(*fv, *elem, &mut ej),
+                        }
+                        es.push(ej);
+                    }
+                    o.set("elems", J::Arr(es));
                 }
             }
         }
